@@ -30,7 +30,9 @@ let parse_tags toks = match toks with
   | [] -> failwith "no tag count"
 let parse_response toks = match toks with
   | code :: blen :: id :: rest ->
-    ({ r_code = n_of_decimal code; r_body_len = (if blen = "-" then None else Some (n_of_decimal blen));
+    ({ r_code = n_of_decimal code;
+       (* g<max> = a get-the-body-first answer: logged like any other response, its body is empty *)
+       r_body_len = (if blen = "-" then None else if blen.[0] = 'g' then Some N0 else Some (n_of_decimal blen));
        r_id = n_of_decimal id }, rest)
   | _ -> failwith "short response"
 let bt_text = List.map n_of_int [60; 100; 105; 115; 97; 98; 108; 101; 100; 62]   (* <disabled> *)
